@@ -47,7 +47,7 @@ PROBES = ["unset_below_non_default_ancestor", "set_on_sibling", "invalid_value_r
           "instance_write_to_class_only_setting_rejected", "per_call_method_override",
           "instance_override_then_unset", "native_anim_max_bytes_shared",
           "render_reveals_lines", "render_reveals_whole", "render_reveals_jpeg",
-          "render_reveals_png", "animated_draw_reveals_method"]
+          "render_reveals_png", "animated_draw_reveals_method", "setting_on_abstract_ancestor"]
 COMPONENTS = {
     "real": ["BaseImage.set_render_method (class and instance forms)", "ImageMeta.forced_support",
              "ITerm2ImageMeta + ClassInstanceProperty / ClassProperty descriptors",
@@ -77,7 +77,8 @@ class Node:
                 return n.own[setting]
             n = n.parent
         if setting == "method":
-            return {"kitty": "lines", "iterm2": "lines", "block": None}[self.family]
+            return {"kitty": "lines", "iterm2": "lines", "block": None,
+                    "abstract": None}[self.family]
         return DEFAULTS[setting]
 
 
@@ -97,17 +98,24 @@ def run(ch, ctx, fault=None):
         # image iterator, a different path to the same render-method decision
         pil_anim = Image.open(io.BytesIO(images.anim_bytes(2, 4, 4)))
         anim_objs = []     # kept alive: identity must not be recycled
+        # the library's own abstract ancestors are classes "in the ancestry" too: a value set
+        # on BaseImage / GraphicsImage / TextImage is what every style below it sees
+        n_base = Node(ti_image.BaseImage, None, "abstract", "BaseImage")
+        n_graphics = Node(ti_image.GraphicsImage, n_base, "abstract", "GraphicsImage")
+        n_text = Node(ti_image.TextImage, n_base, "abstract", "TextImage")
+        abstract = [n_base, n_graphics, n_text]
         roots = []
-        for fam, cls in (("kitty", ti_image.KittyImage), ("iterm2", ti_image.ITerm2Image),
-                         ("block", ti_image.BlockImage)):
-            roots.append(Node(cls, None, fam, cls.__name__))
+        for fam, cls, par in (("kitty", ti_image.KittyImage, n_graphics),
+                              ("iterm2", ti_image.ITerm2Image, n_graphics),
+                              ("block", ti_image.BlockImage, n_text)):
+            roots.append(Node(cls, par, fam, cls.__name__))
         nodes = list(roots)
         # seeded subclass tree
         for _ in range(ch.int("n_sub", 1, 8)):
             parent = ch.pick("parent", nodes)
             depth = 0
             p = parent
-            while p.parent is not None:
+            while p.parent is not None and p.parent.family != "abstract":
                 depth += 1
                 p = p.parent
             if depth >= 3 or sum(1 for n in nodes if n.parent is parent) >= 3:
@@ -127,6 +135,8 @@ def run(ch, ctx, fault=None):
                     anim_objs.append(obj)
                 n.instances.append((obj, {}))
         ctx.op("tree: " + ", ".join("%s(%d inst)" % (n.name, len(n.instances)) for n in nodes))
+        concrete = list(nodes)
+        nodes = abstract + nodes
         namb = [NAMB_DEFAULT]
         pending_nontrivial = [False]
 
@@ -233,7 +243,10 @@ def run(ch, ctx, fault=None):
                 (6, "cls_method"), (4, "inst_method"), (3, "cls_forced"), (1, "inst_forced"),
                 (3, "jpeg"), (3, "rff"), (2, "namb"), (6, "render"),
             ])
-            n = ch.pick("node", nodes)
+            n = ch.pick("node", concrete)
+            if op == "cls_forced" and ch.bool("on_abstract_ancestor", 0.25):
+                n = ch.pick("abstract", abstract)
+                ctx.probe("setting_on_abstract_ancestor")
             desc = op
             if op == "cls_method":
                 val = ch.pick("mval", ("lines", "whole", None, None, "WHOLE", "anim", "bogus", 7))
